@@ -58,4 +58,10 @@ DRIVERS = {
         "level_text": "For every scenario of the product the dry execution's effect log must contain no kill, xattr write, control-file write, pidfd/process_mrelease or sd-bus call and leave oomd.kills / oomd.restarts untouched, while naming (marked '(dry)') the cgroup the wet execution attacks first and showing the same return value and the same ticks of later chain starts as a wet run whose first attempt succeeded.",
         "level_note": "Trusted: harness is libc/sd-bus for all effect calls; world determinism (both runs start from byte-identical trees at the same virtual time).",
     },
+    "C16": {
+        "sources": COMMON + ["props/c16.cpp"], "level": "exploration", "engine": "E1",
+        "technique": "bounded-exhaustive enumeration of all path/pattern strings and directory universes up to the stated sizes, each checked against an independent reference (canonical component list, hand-written component-wise glob)",
+        "level_text": "Complete enumeration: no string, pair or directory subset within the bounds is skipped, so any counterexample of that size to canonicalisation, child/parent identity, equality/hash agreement, the three-case prekill pattern relation or wildcard resolution on a real file system is found.",
+        "level_note": "Trusted: the reference in harness/common/refglob.h (shares no code with oomd or glob(3)); real tmpfs for resolution. '.'/'..' pattern components and bracket/brace syntax are left open.",
+    },
 }
